@@ -98,13 +98,16 @@ def crate_dir(name):
     return dst
 
 
-def ensure_replayer(hooks=False):
-    tag = 'hook' if hooks else 'plain'
+def ensure_replayer(hooks=False, coarse=False):
+    """coarse: the variant whose key type hashes every key alike (--cfg coarse_hash), see replay/src/main.rs"""
+    tag = ('hook' if hooks else 'plain') + ('-coarse' if coarse else '')
     with Lock('replay-' + tag):
         tdir = os.path.join(WORK, 'replay-target-' + tag)
         env = dict(ENV, CARGO_TARGET_DIR=tdir)
         if hooks:
             env['RUSTFLAGS'] = (env.get('RUSTFLAGS', '') + ' --cfg gdsl_verif').strip()
+        if coarse:
+            env['RUSTFLAGS'] = (env.get('RUSTFLAGS', '') + ' --cfg coarse_hash').strip()
         env['RUSTFLAGS'] = (env.get('RUSTFLAGS', '') + ' -Awarnings').strip()
         t = time.time()
         r = subprocess.run(['cargo', 'build', '--offline', '--quiet'], cwd=crate_dir('replay'), env=env,
